@@ -6,6 +6,7 @@ import TonicModel.Lemmas.WebClient
 import TonicModel.Lemmas.WebClientBlock
 import TonicModel.Lemmas.WebCaller
 import TonicModel.Lemmas.WebClientHead
+import TonicModel.Lemmas.WebClientHints
 import TonicModel.Props.C04
 /-
 C17 — grpc-web client layer recovers messages and full trailers under any chunking.
@@ -540,5 +541,71 @@ example : Spec.GrpcWeb.respKind (some (str "text/html")) = .other := by decide
 example : (str "AAAAAAIJCYAAAAAPZ3JwYy1zdGF0dXM6MA0K") ≠ [] ∧
     (Spec.GrpcWeb.b64StreamDecode (str "AAAAAAIJCYAAAAAPZ3JwYy1zdGF0dXM6MA0K")).isSome = true := by
   decide +kernel
+
+/-! ### the hints of the returned body (`Body::is_end_stream`, `Body::size_hint`) — audit aC17
+
+`Hints.observeH hf evs` is `Fixed.observe evs` with, in front of every frame, what the returned
+body answered to `is_end_stream()` / `size_hint()` right before the `poll_frame` call that produced
+the frame.  `Hints.outerHint bits` is `GrpcWebCall`'s answer in client/Decode mode after
+`fix: grpc-web client response body no longer reports the inner body's … hints as its own`;
+`Hints.delegated bits` is the code as found (both methods handed on the inner body's answer).
+`bits` says which hints the INNER body gives (exact size, end of stream). -/
+
+open WebClient.Hints in
+/-- **Hints are invisible in the frames.**  Whatever the inner body answers to `size_hint` /
+`is_end_stream`, and whatever the returned body answers, the frames are those of
+`Fixed.observe` — `C17_lossless`, `C17_truncation_is_error`, `C17_total` apply unchanged. -/
+theorem C17_hints_invisible (hf : HintFn) (evs : List BodyEv) :
+    (observeH hf evs).map Prod.snd = Fixed.observe evs :=
+  WebClientHintsLemmas.runH_frames hf evs {} _
+
+open WebClient.Hints in
+/-- **`is_end_stream()` is true only right before the `None`**, for every body, chunking and
+`Pending` pattern and every hint behaviour of the inner body: never while message bytes are
+buffered or the trailers are still to be handed out, never before an error. -/
+theorem C17_end_stream_hint_sound (bits : Nat) (evs : List BodyEv) :
+    endHintOk (observeH (outerHint bits) evs) = true :=
+  WebClientHintsLemmas.runH_end bits evs {} _ (WebClientHintsLemmas.quietR_outer bits {} evs)
+
+open WebClient.Hints in
+/-- **`size_hint()` is sound**: at every frame, `lower ≤ data bytes from here on ≤ upper` (the
+trailers frame and bytes cut off by an error are not data). -/
+theorem C17_size_hint_sound (bits : Nat) (evs : List BodyEv) :
+    sizeHintOk (observeH (outerHint bits) evs) = true :=
+  WebClientHintsLemmas.runH_size bits evs {} _
+    (by simpa using WebClientHintsLemmas.covers_outer bits {} false evs)
+
+open WebClient.Hints in
+/-- **A consumer that honours the end-of-stream hint loses nothing**: asking `is_end_stream`
+before every poll and stopping when told `true` yields exactly the frames of a consumer that
+polls to the `None` — so `C17_lossless` (messages, then the complete trailers) holds for it too. -/
+theorem C17_lossless_for_consumers_honouring_the_hint (bits : Nat) (evs : List BodyEv) :
+    honour (observeH (outerHint bits) evs) = Fixed.observe evs := by
+  rw [← C17_hints_invisible (outerHint bits) evs]
+  apply WebClientHintsLemmas.honour_eq _ (C17_end_stream_hint_sound bits evs)
+  right
+  rw [C17_hints_invisible]
+  exact run_endsOnce evs {}
+
+open WebClient.Hints in
+/-- The code as found (hints handed on from the inner body) fails all three: with an inner body
+that reports its end (hyper's `Incoming`, `Full`), message and trailers frame in one chunk — the
+returned body says `is_end_stream() == true` while it still holds the trailers, and a consumer that
+honours the hint never sees the server's status; with an inner body of exact size the trailers
+frame is announced as data. -/
+theorem C17_hints_fail_when_delegated :
+    endHintOk (observeH (delegated 2) [.data (msg ++ tf0)]) = false ∧
+    honour (observeH (delegated 2) [.data (msg ++ tf0)]) = [.data msg, .eos] ∧
+    sizeHintOk (observeH (delegated 1) [.data (msg ++ tf0)]) = false := by
+  decide +kernel
+
+/-- … repaired. -/
+theorem C17_hint_witness_repaired :
+    Hints.honour (Hints.observeH (Hints.outerHint 2) [.data (msg ++ tf0)]) =
+      [.data msg, .trailers [(str "grpc-status", str "0")], .eos] := by
+  decide +kernel
+
+example : (Hints.observeH (Hints.outerHint 3) [.data (msg ++ tf0)]).map Prod.fst =
+    [⟨false, 0, none⟩, ⟨false, 0, none⟩, ⟨true, 0, none⟩] := by decide +kernel
 
 end C17
